@@ -68,6 +68,8 @@ long vp_syscall_futex (long number, int *uaddr, int op, int val, const struct ti
 	VP_ASSERT ((op & FUTEX_CMD_MASK) == FUTEX_WAIT_BITSET || (op & FUTEX_CMD_MASK) == FUTEX_WAIT, "C12: only FUTEX_WAIT and FUTEX_WAKE are used");
 	VP_ASSERT (ts == NULL || (ts->tv_sec >= 0 && ts->tv_nsec >= 0 && ts->tv_nsec < 1000000000L),
 		   "C15: the futex timeout is a valid timespec (the kernel answers EINVAL otherwise)");
+	VP_ASSERT (!vp_s.finite_deadline || ts != NULL,
+		   "C15: a wait that was given a deadline passes a timeout to the kernel (with a NULL timeout the futex sleeps without limit and the deadline is ignored)");
 	VP_ASSERT (val == 0 && vp_s.last_load_valid && vp_s.last_load == (uint32_t) val,
 		   "C12: the semaphore sleeps only on the value it has just loaded, and only if that value is 0");
 	vp_s.waits++;
